@@ -635,10 +635,31 @@ def run_h12(chk, repo):
                           'their display text', floor=2)
     hm = repo.module('pharmpy.workflows.hashing')
     n = 0
-    for f in dict.values(hm.functions):
+    _classes, funcs = repo.scope(hm)          # also what hashing.py imports by name from the package (a moved helper)
+    for f in funcs:
+        if f.parent is not None:
+            continue
+        cands = []
         for c in [c for c in ast.walk(f.node) if isinstance(c, ast.Call) and isinstance(c.func, ast.Name)
                   and c.func.id in ('repr', 'str', 'format') and len(c.args) == 1]:
             a = c.args[0]
+            if isinstance(a, ast.Name):
+                # repr(obj) for obj in (list(df.columns), df.index, ..): every listed object is a candidate
+                srcs = [g.iter for comp in ast.walk(f.node) if isinstance(comp, (ast.GeneratorExp, ast.ListComp))
+                        for g in comp.generators if isinstance(g.target, ast.Name) and g.target.id == a.id
+                        and any(x is c for x in ast.walk(comp))]
+                srcs += [L.iter for L in ast.walk(f.node) if isinstance(L, ast.For) and isinstance(L.target, ast.Name)
+                         and L.target.id == a.id and any(x is c for x in ast.walk(L))]
+                for it in srcs:
+                    if isinstance(it, ast.Name):
+                        it = next((d_.value for d_ in ast.walk(f.node) if isinstance(d_, ast.Assign)
+                                   and len(d_.targets) == 1 and isinstance(d_.targets[0], ast.Name)
+                                   and d_.targets[0].id == it.id), it)
+                    if isinstance(it, (ast.Tuple, ast.List)):
+                        cands += [(c, el) for el in it.elts]
+            else:
+                cands.append((c, a))
+        for c, a in cands:
             inner, wrapped = a, False
             while True:
                 if isinstance(inner, ast.Call) and isinstance(inner.func, ast.Name) and inner.func.id in (
@@ -652,10 +673,10 @@ def run_h12(chk, repo):
             if not (isinstance(inner, ast.Attribute) and inner.attr in ('columns', 'index', 'dtypes', 'values')):
                 continue
             n += 1
-            chk.instance(H12, f'{f.qualname}: {unparse(c)}: entries materialised: {wrapped}')
+            chk.instance(H12, f'{f.qualname}: repr of {unparse(a)}: entries materialised: {wrapped}')
             if not wrapped:
-                chk.violation(H12, hm.rel, f.qualname, unparse(c),
-                              f'the display text of `{unparse(inner)}` is hashed: it is abbreviated and wrapped according to the '
+                chk.violation(H12, hm.rel, 'dataset hash', f'repr(<frame>.{inner.attr})',
+                              f'{f.module.rel}::{f.qualname}: the display text of `{unparse(inner)}` is hashed: it is abbreviated and wrapped according to the '
                               f'pandas display options of the process, so the key of one model differs between processes and '
                               f'datasets that differ in the elided entries collide', line=c.lineno,
                               witness='pd.set_option("display.max_seq_items", 10) in one of two processes; a dataset with more '
